@@ -257,7 +257,8 @@ fn rotate(
         _ => false, // Only case that can actually happen is (None, None)
     };
 
-    for i in (base..base + count - 1).rev() {
+    // `count` is at least 1 here; `base + count` itself may not fit although every index does
+    for i in (base..base + (count - 1)).rev() {
         #[cfg(log4rs_verif)]
         crate::verif_hooks::rotate_step()?;
         let src = expand_env_vars(pattern.replace("{}", &i.to_string()));
